@@ -15,7 +15,7 @@ import vlib
 from checks import c01ieee
 
 PID = "C01"
-CORE = ["ints", "bool", "float", "char", "loops", "calls", "recfn", "ret", "enum", "opt", "rec", "list", "str", "fstr", "generic", "filtermap", "copymut", "hostopt", "shadow", "gconst", "kconst", "mods", "exprstmt", "hmeth"]
+CORE = ["ints", "bool", "float", "char", "loops", "calls", "recfn", "ret", "enum", "opt", "rec", "list", "str", "fstr", "generic", "filtermap", "copymut", "hostopt", "shadow", "gconst", "kconst", "mods", "exprstmt", "hmeth", "anonrec"]
 
 
 def run(tier):
